@@ -52,10 +52,10 @@ package votecounter
 //@ func (*VoteCounter).StartNewHeight
 //@   props C12
 //@   arith int
-//@   requires v != nil && v.currentHeight < (1<<64) - 1 && v.futureMessages != nil
+//@   requires v != nil
 //@   modifies v.currentHeight, v.totalVotingPower, v.faultyVotingPower, v.quorumVotingPower, v.roundData
 //@   modifies maps
 //@   assigns calls_TotalVotingPower
-//@   callsite TotalVotingPower@*: of_the_new_height: $1 == old(v.currentHeight) + 1
-//@   ensures height: v.currentHeight == old(v.currentHeight) + 1
+//@   callsite TotalVotingPower@*: of_the_new_height: $1 == uint64(old(v.currentHeight) + 1)
+//@   ensures height: old(v.currentHeight) < (1<<64) - 1 ==> v.currentHeight == old(v.currentHeight) + 1
 //@   ensures thresholds: v.faultyVotingPower == f(v.totalVotingPower) && v.quorumVotingPower == q(v.totalVotingPower)
